@@ -4,7 +4,7 @@ import math
 import random
 
 from . import core, worldgen as wg, ridgeref
-from .common import world, ok, vals, q3, margin_pass, block_delta, TOL
+from .common import world, ok, vals, q3, q2, margin_pass, block_delta, TOL
 
 PID = 'C08'
 PI = math.pi
@@ -382,6 +382,18 @@ def main(tier, seed, replay):
         world(c, 1, core.workfile(PID, fn))
         ti = [c.add('tags', 1)]
         base_idx = [q3(c, 1, ctx, sx, sy, d, PROPS) for (sx, sy, d) in pts]
+        # the 2D entry point: coordinates are relative to the cross section, which moves with the world, so the SAME (x, z, depth)
+        # must get the same answer in W and g(W)
+        pts2 = []
+        pts2_mapped = []
+        cross = w['truth'].get('cross')
+        if cross:
+            for _ in range(20):
+                d = wrng.choice([0.0, wrng.uniform(0, 3e5), wrng.uniform(0, 8e5)])
+                (x2, z2), spos = wg.section_query(ctx, cross, wrng.uniform(-0.3, 1.3), d)
+                pts2.append((x2, z2, d))
+                pts2_mapped.append((spos[0], spos[1], d))     # the 3D position of the statement of C09 (margin rule, alias rule)
+        base_idx2 = [q2(c, 1, x2, z2, d, PROPS) for (x2, z2, d) in pts2]
         mplans = []
         for k, mo in enumerate(motions):
             gdoc = transform_doc(doc, mo['g'], mo.get('angle', 0.0), ctx.sph)
@@ -397,8 +409,9 @@ def main(tier, seed, replay):
                 if ctx.sph:
                     gx = ((gx + 180.0) % 360.0) - 180.0
                 idx.append(q3(c, 2 + k, ctx, gx, gy, d, PROPS))
+            idx += [q2(c, 2 + k, x2, z2, d, PROPS) for (x2, z2, d) in pts2]
             mplans.append((mo, iw, tj, idx, gfn))
-        jobs.append((c, ctx, pts, ti[0], base_idx, mplans, fn, doc))
+        jobs.append((c, ctx, pts + pts2_mapped, ti[0], base_idx + base_idx2, mplans, fn, doc))
     core.run_cases('asan', [j[0] for j in jobs], PID)
     pending = []
     for (c, ctx, pts, ti, base_idx, mplans, fn, doc) in jobs:
